@@ -293,5 +293,5 @@ def run(chk):
 			chk.case("swap", {"values": vals, "i": i, "j": j, "kind": kind, "via": rng.choice(["write", "rebuild"]), "seed": 0}, "swap")
 		for _ in range(3 if chk.quick() else 10):
 			chk.case("readonly", {"kind": kind, "n": rng.choice([1, 3, 4]), "seed": rng.randrange(10**9)}, "read-only")
-	for i in range(120 if chk.quick() else 1200):
+	for i in range(120 if chk.quick() else 400):
 		chk.case("history", {"seed": rng.randrange(10**9), "nsteps": rng.choice([15, 30]) if chk.quick() else rng.choice([15, 30, 60]), "profile": rng.choice(["mixed", "tables"])}, "history")
